@@ -24,19 +24,19 @@ func (c Cond) Rel() Rel { return NormRel(c.T, c.Pol) }
 type Event struct {
 	Kind     string // store mapupdate call go defer send recv select arm mkclosure range next
 	Instr    ssa.Instruction
-	Addr     *Term   // store: address; mapupdate: map; send/recv: channel
-	Key      *Term   // mapupdate key
-	Val      *Term   // stored / sent value; recv: result term
-	Callee   *Term   // call/go/defer: callee term (func / dynamic value)
-	Fn       *types.Func // static callee origin (nil when dynamic)
+	Addr     *Term         // store: address; mapupdate: map; send/recv: channel
+	Key      *Term         // mapupdate key
+	Val      *Term         // stored / sent value; recv: result term
+	Callee   *Term         // call/go/defer: callee term (func / dynamic value)
+	Fn       *types.Func   // static callee origin (nil when dynamic)
 	SSAFn    *ssa.Function // static callee SSA (closures too)
-	Name     string  // callee display name: pkg.(*T).M, or builtin name, or "dyn"
-	Args     []*Term // call args, receiver first for methods
-	Res      *Term   // call result term
-	Deferred bool    // executed by rundefers
-	NCond    int     // number of conds before this event
-	Arm      int     // select arm index (Kind arm)
-	Invoke   bool    // interface method call
+	Name     string        // callee display name: pkg.(*T).M, or builtin name, or "dyn"
+	Args     []*Term       // call args, receiver first for methods
+	Res      *Term         // call result term
+	Deferred bool          // executed by rundefers
+	NCond    int           // number of conds before this event
+	Arm      int           // select arm index (Kind arm)
+	Invoke   bool          // interface method call
 }
 
 // Access is a read of shared memory (not an effect): field/pointer loads and map reads, with the
@@ -60,19 +60,19 @@ const (
 
 // Path is one summarised path through a function (E3).
 type Path struct {
-	Fn      *ssa.Function
-	Conds   []Cond
-	Events  []Event
-	End     EndKind
-	Rets    []*Term
-	Panic   *Term
-	BackTo  *ssa.BasicBlock       // loop header for EndLoopBack
-	Next    map[*ssa.Phi]*Term    // values the header phis take on the back edge
-	Blocks  []int                 // block indices visited
-	Env     map[ssa.Value]*Term   // final environment
-	LoopIn  map[*ssa.BasicBlock]map[*ssa.Phi]*Term // loopvar terms per header entered
-	Acc     []Access
-	LoopAt  map[*ssa.BasicBlock]int // number of events when the header was entered
+	Fn     *ssa.Function
+	Conds  []Cond
+	Events []Event
+	End    EndKind
+	Rets   []*Term
+	Panic  *Term
+	BackTo *ssa.BasicBlock                        // loop header for EndLoopBack
+	Next   map[*ssa.Phi]*Term                     // values the header phis take on the back edge
+	Blocks []int                                  // block indices visited
+	Env    map[ssa.Value]*Term                    // final environment
+	LoopIn map[*ssa.BasicBlock]map[*ssa.Phi]*Term // loopvar terms per header entered
+	Acc    []Access
+	LoopAt map[*ssa.BasicBlock]int // number of events when the header was entered
 }
 
 // FuncPaths holds all paths of one function.
@@ -211,21 +211,21 @@ func (w *walker) ensureHeaders(fn *ssa.Function) {
 }
 
 type pstate struct {
-	env     map[ssa.Value]*Term
-	mem     map[string]*Term // address key -> value
-	memCls  map[string]string
-	epoch   map[string]int
-	global  int
-	conds   []Cond
-	events  []Event
-	blocks  []int
-	onpath  map[*ssa.BasicBlock]bool
-	occ     map[string]int
-	defers  []Event
-	loopIn  map[*ssa.BasicBlock]map[*ssa.Phi]*Term
-	acc     []Access
-	loopAt  map[*ssa.BasicBlock]int
-	frames  []frame
+	env    map[ssa.Value]*Term
+	mem    map[string]*Term // address key -> value
+	memCls map[string]string
+	epoch  map[string]int
+	global int
+	conds  []Cond
+	events []Event
+	blocks []int
+	onpath map[*ssa.BasicBlock]bool
+	occ    map[string]int
+	defers []Event
+	loopIn map[*ssa.BasicBlock]map[*ssa.Phi]*Term
+	acc    []Access
+	loopAt map[*ssa.BasicBlock]int
+	frames []frame
 }
 
 // frame: an inlined call in progress
@@ -1523,7 +1523,6 @@ func storesTo(v ssa.Value) int {
 	}
 	return n
 }
-
 
 // simplifyBin folds comparisons with boolean constants (b == true -> b, b != true -> !b) and of two integer constants.
 func simplifyBin(t *Term) *Term {
